@@ -7,7 +7,14 @@ what importer.go and validator.go check. Binding A: every terminal state is rebu
 real block of C10's pipeline (real DefaultProposalProcessor / Writer / LocalFSWriter), the
 tampered copy is written by the real LocalFSWriter, and the real BlockImporter is fed through
 isaacblock.ImportBlocks on a node synced up to the block below. Verdict: stored => Storable,
-and stored => the repository's own IsValidBlockFromLocalFS accepts what was stored."""
+and stored => the repository's own IsValidBlockFromLocalFS accepts what was stored.
+
+The relations are judged on what was STORED: the harness reads the specification's Facts()
+record (points of both voteproofs relative to the manifest, ACCEPT majority, proposal, tree
+roots, checksums, signature) back from the stored files and rel_facts() (= RelFacts of the
+module) evaluates R3..R7 on it - not the repository's validator, which shares
+base.IsValidVoteproofsWithManifest with the importer. The same record read from the tampered
+source must equal the model's (soundness of the binding; a difference is a machinery error)."""
 import os
 
 from vlib import core
@@ -22,6 +29,38 @@ SHAPE_OPS = {
 }
 
 
+FACT_FIELDS = ["ivp", "avp", "maj", "nbm", "propm", "proph", "opsroot", "stsroot", "stale", "signed"]
+
+
+def rel_facts(f):
+    """ImportValidity.tla RelFacts: the relations as functions of a read-back Facts() record
+    -> set of broken relation numbers (R1, R2: the root clause only)"""
+    ok = {1: f["opsroot"], 2: f["stsroot"],
+          3: f["propm"] and f["proph"] == 0,
+          4: f["ivp"][0] == 0 and f["avp"][0] == 0 and f["ivp"][1] == f["avp"][1],
+          5: f["maj"] and f["nbm"],
+          6: not f["stale"],
+          7: f["signed"]}
+    return {k for k, v in ok.items() if not v}
+
+
+def facts_diff(model, real):
+    return ["%s: model %s, files %s" % (k, model[k], real.get(k)) for k in FACT_FIELDS
+            if (sorted(model[k]) if k == "stale" else model[k]) != (sorted(real.get(k) or []) if k == "stale" else real.get(k))]
+
+
+def r4_class(f):
+    """which of the two voteproofs is off the manifest's point, and how"""
+    parts = []
+    for name in ("ivp", "avp"):
+        dh = f[name][0]
+        if dh:
+            parts.append("%s-height%+d" % (name, dh))
+    if f["ivp"][1] != f["avp"][1]:
+        parts.append("rounds-differ")
+    return ",".join(parts) or "?"
+
+
 def world_record(ctx):
     """the world (genesis, script, catalogue) comes from BlockProcess.tla"""
     w, _, _ = c10.run_model(ctx, "BlockProcess", c10.stage_cfg(
@@ -29,7 +68,7 @@ def world_record(ctx):
     return w
 
 
-def run_plan(ctx, world, cat, tag, cfg, limit=None):
+def plan_cases(ctx, cfg, limit=None):
     r = ctx.tlc("ImportValidity", cfg, args=list(c10.TLC_ARGS), timeout=1500, java_opts=c10.JAVA_OPTS)
     cases = c10.printed(r.out, "CASE")
     if not cases:
@@ -41,6 +80,18 @@ def run_plan(ctx, world, cat, tag, cfg, limit=None):
         rest = [c for c in cases if len(c["tampers"]) > 1]
         rnd.shuffle(rest)
         cases = keep + rest[:max(0, limit - len(keep))]
+    return cases
+
+
+def run_plan(ctx, world, cat, tag, cfgs):
+    """cfgs: [(cfg, limit)] - the terminal states of all of them are replayed by one harness run"""
+    cases, seen = [], set()
+    for cfg, limit in cfgs:
+        for c in plan_cases(ctx, cfg, limit):
+            k = (c["shape"], tuple(c["tampers"]), tuple(c["order"]))
+            if k not in seen:
+                seen.add(k)
+                cases.append(c)
     inp = os.path.join(ctx.work, "cases-%s.ndjson" % tag)
     res = os.path.join(ctx.work, "res-%s.ndjson" % tag)
     rows = []
@@ -53,7 +104,9 @@ def run_plan(ctx, world, cat, tag, cfg, limit=None):
         ci = c10.case_input(world, SHAPE_OPS[shape], [], [], 1, cat)
         rows.append({"chain": ci["chain"], "tampers": [], "raw": True})
         raws.append({"kind": "case", "shape": shape, "tampers": [], "order": [], "broken": [], "storable": True,
-                     "importer": True, "validator": True, "raw": True})
+                     "importer": True, "validator": True, "raw": True,
+                     "facts": {"ivp": [0, 0], "avp": [0, 0], "maj": True, "nbm": True, "propm": True, "proph": 0,
+                               "opsroot": True, "stsroot": True, "stale": [], "signed": True}})
     cases = cases + raws
     core.write_ndjson(inp, rows)
     ctx.vh(["C16", "replay", "--in", inp, "--out", res, "--work", os.path.join(ctx.work, "go-" + tag)], timeout=2400)
@@ -73,10 +126,22 @@ def run_plan(ctx, world, cat, tag, cfg, limit=None):
             continue
         ctx.traces += 1
         broken = sorted(c["broken"])
+        # soundness of the binding: the files offered by the source are the model's block
+        so = o.get("source_obs") or {}
+        if so.get("err") and c["storable"]:
+            raise core.MachineryError("cannot read the source block back %s/%s: %s" % (c["shape"], c["tampers"], so["err"]))
+        if not so.get("err"):
+            d = facts_diff(c["facts"], so)
+            if d:
+                raise core.MachineryError("the tampered source is not the model's block %s/%s: %s" % (
+                    c["shape"], c["tampers"], "; ".join(d)))
+            bump("source_facts_agree")
         sample = {"shape": c["shape"], "block_operations": SHAPE_OPS[c["shape"]], "tampers": c["tampers"],
                   "arrival_order": c["order"], "spec": {"broken": ["R%d" % k for k in broken], "storable": c["storable"],
                                                          "importer_model": c["importer"], "validator_model": c["validator"]},
                   "real": {"stored": o["stored"], "import_error": o.get("import_err", ""),
+                           "source_validator": o.get("source_validator") or "accepts",
+                           "stored_facts": o.get("stored_obs"),
                            "validator": o["validator"] or "accepts" if o["stored"] else "-",
                            "db_members": o.get("db_members"), "db_policy": o.get("db_policy")}}
         ctx.case([c["shape"], c["tampers"], c["order"], bool(c.get("raw"))], nontrivial=bool(c["tampers"]), sample=sample)
@@ -91,8 +156,34 @@ def run_plan(ctx, world, cat, tag, cfg, limit=None):
                 bump("honest_block_refused")
                 ctx.extra.setdefault("honest_block_refused", []).append({"shape": c["shape"], "error": o.get("import_err", "")})
             continue
-        # the statement: stored => Storable
+        # the statement: stored => Storable, evaluated on what was stored (read back from the
+        # stored files) as well as on the model's block
+        st_obs = o.get("stored_obs") or {}
+        if st_obs.get("err"):
+            ctx.violation("stored-block-unreadable", "BlockImporter stored a block whose items cannot be read back: %s; tampers %s" % (
+                st_obs["err"], c["tampers"]), sample)
+            seen_broken = set()
+        else:
+            seen_broken = rel_facts(st_obs)
+            if facts_diff(c["facts"], st_obs):
+                bump("stored_differs_from_offered")
+                ctx.extra.setdefault("stored_differs_from_offered", []).append(
+                    {"shape": c["shape"], "tampers": c["tampers"], "diff": facts_diff(c["facts"], st_obs)})
+        for k in sorted(seen_broken - set(broken)):
+            # (R1, R2 are seen by their root clause only: a subset of the model's)
+            ctx.violation("importer-skips(R%d)" % k, "the block stored by BlockImporter breaks R%d as read back from the stored "
+                          "files (%s) although the offered block did not: tampers %s" % (k, st_obs, c["tampers"]), sample)
         for k in broken:
+            if k in (3, 4, 5, 6, 7) and not st_obs.get("err") and k not in seen_broken:
+                continue        # what was stored does not break it (the importer repaired / dropped the item)
+            if k == 4:
+                ctx.violation("importer-skips(R4:%s)" % r4_class(st_obs),
+                              "a block whose voteproofs are not for the manifest's point (R4) was stored by BlockImporter: "
+                              "stored INIT voteproof at manifest height%+d round %d, ACCEPT voteproof at manifest height%+d round %d; "
+                              "tampers %s on a block with operations %s; IsValidBlockFromLocalFS on what was stored: %s" % (
+                                  st_obs["ivp"][0], st_obs["ivp"][1], st_obs["avp"][0], st_obs["avp"][1], c["tampers"],
+                                  SHAPE_OPS[c["shape"]], o["validator"] or "accepts"), sample)
+                continue
             what = "a block whose %s was stored by BlockImporter: tampers %s on a block with operations %s%s" % (
                 {1: "operations do not match the manifest's operations tree (R1)",
                  2: "states do not match the manifest's states tree (R2)",
@@ -118,28 +209,30 @@ def run_plan(ctx, world, cat, tag, cfg, limit=None):
             bump("validator_model_differs")
             ctx.extra.setdefault("validator_model_differs", []).append(
                 {"shape": c["shape"], "tampers": c["tampers"], "model": c["validator"], "real": o["validator"][-120:]})
-    for k in ("importer_model_differs", "validator_model_differs"):
+    for k in ("importer_model_differs", "validator_model_differs", "stored_differs_from_offered"):
         if k in ctx.extra:
             ctx.extra[k] = ctx.extra[k][:20]
-    return r
 
 
 def run(ctx):
     quick = ctx.tier == "quick"
     world = world_record(ctx)
     cat = {o["id"]: o for o in world["catalogue"]}
+    # ..._mc_vps*.cfg: each of the two voteproofs at its own point - every pair of voteproof tamper actions
     if quick:
-        run_plan(ctx, world, cat, "mc", "ImportValidity_mc_quick.cfg")
+        run_plan(ctx, world, cat, "mc", [("ImportValidity_mc_quick.cfg", None), ("ImportValidity_mc_vps.cfg", None)])
     else:
-        run_plan(ctx, world, cat, "mc", "ImportValidity_mc_thorough.cfg", limit=1500)
-        run_plan(ctx, world, cat, "orders", "ImportValidity_mc_orders.cfg", limit=1200)
+        run_plan(ctx, world, cat, "mc", [("ImportValidity_mc_thorough.cfg", 1500), ("ImportValidity_mc_vps_thorough.cfg", None)])
+        run_plan(ctx, world, cat, "orders", [("ImportValidity_mc_orders.cfg", 1200)])
     # the statement on the transcription of the importer: expected to fail (candidates, reproduced above)
     r = ctx.tlc("ImportValidity", "ImportValidity_statement.cfg", args=list(c10.TLC_ARGS), timeout=600,
                 java_opts=c10.JAVA_OPTS, allow_violation=True, count=False)
     ctx.extra["statement_on_importer_model"] = r.violated or "holds"
     ctx.exhaustive = True
     ctx.rule = ("every terminal state of ImportValidity.tla (block shape x tamper actions x arrival order of the items) "
+                "and every pair of voteproof tamper actions (each voteproof at its own point), "
                 "rebuilt from a real block and imported by the real BlockImporter, plus each shape's untouched files; "
+                "relations judged on the Facts() record read back from the stored files; "
                 "distinct by (shape, tampers, order); non-trivial = at least one tamper action")
     ctx.assumptions = [
         "the manifest is the one agreed by consensus; a sync source can change every item, re-compute checksums and sign the map again",
